@@ -109,7 +109,17 @@ def _diag_to_failure(unit, g, d):
         kind = 'assert'
     else:
         kind = 'panic'
-    if text.startswith('({') or (not TAG_RE.search(text) and not LABEL_RE.search(text) and text.count('{') > text.count('}')):
+    if not TAG_RE.search(text) and not LABEL_RE.search(text) and not text.startswith('({') and org.get('kind') in ('spec', 'loopinv'):
+        # a clause that runs over several lines: its tags / label sit on the line where its brackets close
+        depth = 0
+        for ln2 in range(chosen - 1, min(chosen + 60, len(g.lines))):
+            code = re.sub(r'//.*$', '', g.lines[ln2])
+            depth += sum(code.count(c) for c in '([{') - sum(code.count(c) for c in ')]}')
+            if depth <= 0 and code.strip().endswith(','):
+                if ln2 != chosen - 1 and (TAG_RE.search(g.lines[ln2]) or LABEL_RE.search(g.lines[ln2])):
+                    text = text + ' ... ' + g.lines[ln2].strip()
+                break
+    elif text.startswith('({') or (not TAG_RE.search(text) and not LABEL_RE.search(text) and text.count('{') > text.count('}')):
         # a block clause: its tags/label sit on the closing line `}), // [..] #label`
         for ln2 in range(chosen, min(chosen + 40, len(g.lines))):
             l2 = g.lines[ln2].strip()
